@@ -3,7 +3,8 @@
 # (in the agent's scratch worktree), apply it to /repo, run the quick check(s) (expected: exit 0), undo it, and record it under
 # /verif/seeded/benign/<PROP>-<tag>-<i>/ .  A check that alarms on a benign change is a false alarm to be corrected.
 import sys, os, subprocess, json, shutil, glob, time
-agent, props = sys.argv[1], sys.argv[2:]
+skip = "--skip-tests" in sys.argv      # patches already confirmed once
+agent, props = sys.argv[1], [a for a in sys.argv[2:] if not a.startswith("--")]
 tag = os.path.basename(agent.rstrip("/"))
 env = dict(os.environ, CARGO_NET_OFFLINE="true")
 def sh(cmd, cwd=None, timeout=3600, e=env):
@@ -14,13 +15,15 @@ for i in (1, 2, 3):
     if not os.path.exists(patch):
         print("patch%d: missing" % i); continue
     note = open(os.path.join(agent, "benign", "note%d.txt" % i)).read() if os.path.exists(os.path.join(agent, "benign", "note%d.txt" % i)) else ""
-    sh("git checkout -- . ", cwd=agent)
-    rc, out = sh("git apply %s" % patch, cwd=agent)
-    if rc != 0:
-        print("patch%d: does not apply: %s" % (i, out[-300:])); continue
-    rc, out = sh("cargo test --offline 2>&1 | grep -E '^test result|FAILED|panicked|^error' | head -20", cwd=agent)
-    tests_ok = "FAILED" not in out and "error" not in out and out.count("test result: ok") >= 4
-    sh("git checkout -- . ", cwd=agent)
+    tests_ok = True
+    if not skip:
+        sh("git checkout -- . ", cwd=agent)
+        rc, out = sh("git apply %s" % patch, cwd=agent)
+        if rc != 0:
+            print("patch%d: does not apply: %s" % (i, out[-300:])); continue
+        rc, out = sh("cargo test --offline 2>&1 | grep -E '^test result|FAILED|panicked|^error' | head -20", cwd=agent)
+        tests_ok = "FAILED" not in out and "error" not in out and out.count("test result: ok") >= 4
+        sh("git checkout -- . ", cwd=agent)
     if not tests_ok:
         print("patch%d: the test suite does not pass with it: %s" % (i, out[-400:])); continue
     rc, out = sh("git -C /repo status --porcelain")
